@@ -64,111 +64,178 @@ def _r1(chk, repo, ci):
             if isinstance(sub, ast.Call) and call_name(sub) == "self._compute_numpy_stats":
                 n += 1
                 kw = {k.arg: _norm(k.value) for k in sub.keywords}
-                chk.add("C19-R1", f"{ci.qual}.{name}/{_norm(sub.args[0])}", kw.get("axis") == "-1", site(repo, sub), "reduction over axis=-1",
+                # a wrapper that only forwards (method, *args, **kwargs) is judged at its callers
+                forwards = any(k.arg is None for k in sub.keywords) and name != "_compute_numpy_stats"
+                chk.add("C19-R1", f"{ci.qual}.{name}/{_norm(sub.args[0])}", kw.get("axis") == "-1" or forwards, site(repo, sub), "reduction over axis=-1",
                         f"`{unparse(sub)[:70]}` does not reduce over the sample axis (axis=-1)", sub)
     ns = repo.method(ci, "_compute_numpy_stats")[1]
     m = func_params(ns)[1]
-    ok = f"stats={m}(self.samples,*args,**kwargs)" in _norm(ns) and "returnstats" in _norm(ns)
+    from .common import views, canon_fn
+    from ..pathtable import walk as _walk
+    from ..pattern import norm as _pn
+    k_, r_ = _walk(canon_fn(repo, ci, ns, 1), {}, _pn)
+    ok = k_ == "return" and _pn(r_) == _pn(f"{m}(self.samples,*args,**kwargs)")
     chk.add("C19-R1", f"{ci.qual}._compute_numpy_stats", ok, site(repo, ns), "method(self.samples, *args, **kwargs)", "statistics helper does not apply the method to self.samples", ns)
     p = ci.props.get("Ns")
     ok = p is not None and any(_norm(r.value) in ("self.samples.shape[-1]", "len(self.samples)") for r in ast.walk(p.getter) if isinstance(r, ast.Return))
     chk.add("C19-R1", f"{ci.qual}.@Ns", ok, site(repo, p.getter) if p else "", "number of samples = length of the last axis", "Ns is not the length of the last axis")
 
 
+def _ct(t):
+    from ..pattern import norm as pn
+    from ..canon import _SymOrder
+    return pn(_SymOrder().visit(ast.parse(t, mode="eval").body))
+
+
 def _r2(chk, repo, ci):
+    from .common import canon_fn, match
+    from ..pathtable import walk
+    from ..pattern import norm as pn
     fn = repo.method(ci, "burnthin")[1]
     nb, nt = func_params(fn)[1:3]
-    g = CFG(fn)
+    v = canon_fn(repo, ci, fn, 2)
+    REF = {_ct(f"{nb}>=self.Ns"): None}
     problems = []
-    t = [x for x in g.tests() if _norm(x.ast) == f"{nb}>=self.Ns"]
-    if len(t) != 1 or not all(g.nodes[m].kind == "raisestmt" for m, lab in g.succ[t[0].id] if lab == "T"):
+
+    def val(refuse):
+        return {_ct(f"{nb}>=self.Ns"): refuse, _ct(f"{nb}<self.Ns"): not refuse, _ct(f"self.Ns<={nb}"): refuse, _ct(f"self.Ns>{nb}"): not refuse}
+    k1, r1 = walk(v, val(True), pn)
+    if k1 != "raise":
         problems.append("burn-in >= number of samples is not refused")
-    rets = g.returns()
-    if len(rets) != 1:
-        problems.append("expected a single return")
-    else:
-        v = rets[0].ast.value
-        body = [_norm(s) for s in strip_docstring(fn.body)]
-        if isinstance(v, ast.Name):
-            name = v.id
-            if f"{name}=copy(self)" not in body:
-                problems.append("result is not a shallow copy of self (flags and geometry would not be carried over)")
-            if f"{name}.samples=self.samples[...,{nb}::{nt}]" not in body:
+    k2, r2 = walk(v, val(False), pn)
+    rec = k2 == "return"
+    if rec:
+        raw = getattr(r2, "_raw", None)
+        env = getattr(r2, "_env", {})
+        sl = _ct(f"self.samples[...,{nb}::{nt}]")
+        if isinstance(raw, ast.Name) and _ct(unparse(r2)) in (_ct("copy(self)"), _ct("copy.copy(self)")):
+            got = env.get(f"{raw.id}.samples")
+            if got is None or _ct(unparse(got)) != sl:
                 problems.append(f"samples of the result are not the slice [..., {nb}::{nt}]")
-            writes = [b for b in body if b.startswith("self.") and "=" in b.split("(")[0]]
-            if writes:
-                problems.append(f"the source object is written: {writes}")
-        elif isinstance(v, ast.Call) and call_name(v) == "Samples":
-            kw = {k.arg: _norm(k.value) for k in v.keywords}
-            args = [_norm(a) for a in v.args]
-            if not args or args[0] != f"self.samples[...,{nb}::{nt}]":
+            extra = [k for k in env if k.startswith(raw.id + ".") and k != f"{raw.id}.samples"]
+            if extra:
+                problems.append(f"the copy is modified beyond its samples: {extra}")
+        elif isinstance(r2, ast.Call) and call_name(r2) == "Samples":
+            kw = {k.arg: _ct(unparse(k.value)) for k in r2.keywords}
+            args = [_ct(unparse(a)) for a in r2.args]
+            if not args or args[0] != sl:
                 problems.append(f"samples of the result are not the slice [..., {nb}::{nt}]")
             for flag in ("is_par", "is_vec", "geometry"):
                 if kw.get(flag) != f"self.{flag}":
                     problems.append(f"representation flag/geometry `{flag}` is not carried over to the result (constructor default would be used)")
         else:
-            problems.append(f"unexpected result expression `{unparse(v)}`")
-    chk.add("C19-R2", f"{ci.qual}.burnthin", not problems, site(repo, fn), "refuse Nb >= Ns; copy(self) with samples = self.samples[..., Nb::Nt]", "; ".join(problems), fn)
+            problems.append(f"result `{unparse(r2)[:80]}` is not a shallow copy of self with the thinned samples (flags and geometry would not be carried over)")
+    writes = [unparse(s_)[:50] for s_ in ast.walk(v) if isinstance(s_, ast.Assign) and (path_of(s_.targets[0]) or "").startswith("self.")]
+    if writes:
+        problems.append(f"the source object is written: {writes}")
+    chk.decide("C19-R2", f"{ci.qual}.burnthin", rec and not problems, rec, site(repo, fn), "refuse Nb >= Ns; copy(self) with samples = self.samples[..., Nb::Nt]",
+               "; ".join(problems) or f"not decidable: {r2}", fn)
     js = repo.cls("cuqi/samples/_samples.py:JointSamples")
     jf = repo.method(js, "burnthin")[1]
     nb, nt = func_params(jf)[1:3]
-    rets = [_norm(r.value) for r in ast.walk(jf) if isinstance(r, ast.Return)]
-    ok = rets == [f"JointSamples({{key:samples.burnthin({nb},{nt})forkey,samplesinself.items()}})"]
-    chk.add("C19-R2", f"{js.qual}.burnthin", ok, site(repo, jf), "same (Nb, Nt) applied to every member", f"joint burnthin is {rets}", jf)
+    ok = match(repo, js, jf, [f"return JointSamples({{_k0:_k1.burnthin({nb},{nt}) for _k0,_k1 in self.items()}})"]) is not None or \
+        match(repo, js, jf, ["$r=JointSamples()", "for: ($k,$s) : self.items()", f"$r[$k]=$s.burnthin({nb},{nt})", "return $r"]) is not None
+    chk.add("C19-R2", f"{js.qual}.burnthin", ok, site(repo, jf), "same (Nb, Nt) applied to every member", "joint burnthin does not apply the same (Nb, Nt) to every member", jf)
 
 
 def _r3(chk, repo, ci):
+    from .common import canon_fn, views
+    from ..pathtable import walk
+    from ..pattern import norm as pn
     for name, npf in (("mean", "np.mean"), ("median", "np.median"), ("variance", "np.var"), ("std", "np.std")):
         fn = repo.method(ci, name)[1]
-        body = [_norm(s) for s in strip_docstring(fn.body)]
-        chk.add("C19-R3", f"{ci.qual}.{name}", body == [f"returnself._compute_numpy_stats({npf},axis=-1)"], site(repo, fn), f"{npf} over the sample axis",
-                f"{name} is {body}", fn)
+        kind, res = walk(canon_fn(repo, ci, fn, 3), {}, pn)
+        got = _ct(unparse(res)) if kind == "return" else kind
+        ok = got in (_ct(f"self._compute_numpy_stats({npf},axis=-1)"), _ct(f"{npf}(self.samples,axis=-1)"))
+        chk.add("C19-R3", f"{ci.qual}.{name}", ok, site(repo, fn), f"{npf} over the sample axis", f"{name} is `{got}`", fn)
     fn = repo.method(ci, "compute_ci")[1]
     p = func_params(fn)[1]
-    body = [_norm(s) for s in strip_docstring(fn.body)]
-    want = [f"lb=(100-{p})/2", "up=100-lb", "returnself._compute_numpy_stats(np.percentile,[lb,up],axis=-1)"]
-    chk.add("C19-R3", f"{ci.qual}.compute_ci", body == want, site(repo, fn), "percentiles [(100-p)/2, 100-(100-p)/2] in this order", f"compute_ci is {body}", fn)
+    kind, res = walk(canon_fn(repo, ci, fn, 3), {}, pn)
+    got = _ct(unparse(res)) if kind == "return" else kind
+    want = [_ct(f"self._compute_numpy_stats(np.percentile,[(100-{p})/2,100-(100-{p})/2],axis=-1)"), _ct(f"np.percentile(self.samples,[(100-{p})/2,100-(100-{p})/2],axis=-1)")]
+    chk.add("C19-R3", f"{ci.qual}.compute_ci", got in want, site(repo, fn), "percentiles [(100-p)/2, 100-(100-p)/2] in this order", f"compute_ci is `{got}`", fn)
     fn = repo.method(ci, "ci_width")[1]
-    body = [_norm(s) for s in strip_docstring(fn.body)]
-    ok = len(body) == 2 and body[0].endswith(f"=self.compute_ci({func_params(fn)[1]})") and body[0].startswith("lo_conf,up_conf=") and body[1] == "returnup_conf-lo_conf"
-    chk.add("C19-R3", f"{ci.qual}.ci_width", ok, site(repo, fn), "upper - lower of compute_ci(percent)", f"ci_width is {body}", fn)
+    p = func_params(fn)[1]
+    kind, res = walk(canon_fn(repo, ci, fn, 3), {}, pn)
+    got = _ct(unparse(res)) if kind == "return" else kind
+    chk.add("C19-R3", f"{ci.qual}.ci_width", got == _ct(f"self.compute_ci({p})[1]-self.compute_ci({p})[0]"), site(repo, fn), "upper - lower of compute_ci(percent)",
+            f"ci_width is `{got}`", fn)
 
 
 def _r4(chk, repo, ci):
+    from .common import canon_fn, stmts, match
+    from ..pathtable import walk
+    from ..pattern import norm as pn, unify
+    from ..flow import Expander
+    # ---- arviz data: names selected by the same indices as the rows, zipped in order
     fn = repo.method(ci, "to_arviz_inferencedata")[1]
-    t = _norm(fn)
-    problems = []
-    for pat, msg in (("variable_indices=np.arange(self._geometry_dim)", "default indices are 0..dim-1 in order"),
-                     ("variables=np.array(self.geometry.variables)", "names from the geometry"),
-                     ("variables=variables[variable_indices].flatten()", "names selected by the same indices as the rows"),
-                     ("datadict=dict(zip(variables,self.samples[variable_indices,:]))", "name i zipped with row i"),
-                     ("returndatadict", "returns the dictionary")):
-        if pat not in t:
-            problems.append(f"{msg} (`{pat}` not found)")
-    g = CFG(fn)
-    if not any(_norm(x.ast) == "self.is_vec" for x in g.tests()):
+    v = canon_fn(repo, ci, fn, 2)
+    idx = func_params(fn)[1]
+    problems, und = [], []
+    for none in (True, False):
+        val = {_ct(f"{idx} is None"): none, _ct(f"{idx} is not None"): not none, _ct("self.is_vec"): True, _ct("len(self.samples.shape)!=2"): False,
+               _ct("len(self.samples.shape)==2"): True}
+        kind, res = walk(v, val, pn)
+        I = "np.arange(self._geometry_dim)" if none else idx
+        want = _ct(f"dict(zip(np.array(self.geometry.variables)[{I}].flatten(),self.samples[{I},:]))")
+        if kind != "return":
+            und.append((kind, res))
+        elif _ct(unparse(res)) != want:
+            problems.append(f"[indices given: {not none}] returns `{unparse(res)[:150]}`, expected variables[idx] zipped with samples[idx, :]")
+    g = CFG(v)
+    if not any(pn(x.ast) in ("self.is_vec", "not self.is_vec") for x in g.tests()):
         problems.append("vector form is not required")
-    chk.add("C19-R4", f"{ci.qual}.to_arviz_inferencedata", not problems, site(repo, fn), "variables[idx] zipped with samples[idx, :]", "; ".join(problems), fn)
+    chk.decide("C19-R4", f"{ci.qual}.to_arviz_inferencedata", not problems and not und, not und, site(repo, fn), "variables[idx] zipped with samples[idx, :]",
+               "; ".join(problems) or str(und[:1]), fn)
+    # ---- ESS: one value per variable, in the dictionary's (= variable) order
     fn = repo.method(ci, "compute_ess")[1]
-    t = _norm(fn)
-    ok = "fori,(key,value)inenumerate(ESS_items):ESS[i]=value.to_numpy()" in t and "ESS_xarray=arviz.ess(self.to_arviz_inferencedata(),**kwargs)" in t
-    chk.add("C19-R4", f"{ci.qual}.compute_ess", ok, site(repo, fn), "result filled in the dictionary's insertion order", "ESS values are not collected in variable order", fn)
+    ORDER = (["for: ($i,($k,$v)) : enumerate($X.items())", "$R[$i]=$v.to_numpy()"], ["$it=$X.items()", "for: ($i,($k,$v)) : enumerate($it)", "$R[$i]=$v.to_numpy()"],
+             ["for: ($i,$v) : enumerate($X.values())", "$R[$i]=$v.to_numpy()"], ["for: ($i,$k) : enumerate($X)", "$R[$i]=$X[$k].to_numpy()"])
+    ok = any(match(repo, ci, fn, ["$X=arviz.ess(self.to_arviz_inferencedata(),**kwargs)"] + o + ["return $R"]) is not None for o in ORDER)
+    rec = any("sorted(" in t or "reversed(" in t for t, _ in stmts(repo, ci, fn))
+    chk.decide("C19-R4", f"{ci.qual}.compute_ess", ok, rec, site(repo, fn), "result filled in the dictionary's insertion order", "ESS values are not collected in variable order", fn)
+    # ---- R-hat
     fn = repo.method(ci, "compute_rhat")[1]
-    t = _norm(fn)
-    problems = []
-    by_index = "samples=np.empty((self.samples.shape[0],n_chains+1,self.samples.shape[1]))" in t and "samples[:,0,:]=self.samples" in t \
-        and "fori,chaininenumerate(chains):samples[:,i+1,:]=chain.samples" in t
-    stacked = "np.stack(" in t and "axis=1" in t
-    if not (by_index or stacked):
-        problems.append("the (variable, chain, draw) array is not built by placing each chain on axis 1 by index "
-                        "(a reshape of vertically stacked chains interleaves variables and chains)")
-    if "datadict=dict(zip(variables,samples))" not in t or "variables=variables.flatten()" not in t:
-        problems.append("variable names are not zipped with the rows of the chain array in order")
-    if "fori,(key,value)inenumerate(RHAT_xarray.items()):RHAT[i]=value.to_numpy()" not in t:
-        problems.append("R-hat values are not collected in variable order")
-    if "ifself.geometry!=chains[i].geometry:" not in t:
+    S = stmts(repo, ci, fn)
+    T = [t for t, _ in S]
+    problems, unknowns = [], []
+    # chains on axis 1, placed by index
+    stores = [t for t in T if ("[:,0,:]=" in t or "+1,:]=" in t or ",:]=" in t) and ".samples" in t and "[:," in t]
+    b1, _ = unify(["$S[:,0,:]=self.samples", "for: ($i,$c) : enumerate(chains)", "$S[:,$i+1,:]=$c.samples"], S)
+    b2, _ = unify(["for: ($i,$c) : enumerate([self]+chains)", "$S[:,$i,:]=$c.samples"], S)
+    stacked_ok = any(("np.stack(" in t and "axis=1" in t) for t in T)
+    reshaped = [t for t in T if ".reshape(" in t and any(w in " ".join(T) for w in ("np.vstack(", "np.array([self.samples", "np.concatenate(", "np.hstack("))]
+    if not (b1 or b2 or stacked_ok):
+        if reshaped:
+            problems.append("the (variable, chain, draw) array is not built by placing each chain on axis 1 by index "
+                            f"(`{reshaped[0][:90]}`: a reshape of stacked chains interleaves variables and chains)")
+        else:
+            unknowns.append("construction of the (variable, chain, draw) array not recognised")
+    Sname = (b1 or b2 or {}).get("S")
+    if Sname:
+        ex = Expander(canon_fn(repo, ci, fn, 2))
+        zips = [n for n in ex.cfg.nodes if n.ast is not None and n.kind in ("stmt", "return") for c in ast.walk(n.ast) if isinstance(c, ast.Call) and call_name(c) == "zip"]
+        zc = [(n, c) for n in ex.cfg.nodes if n.ast is not None and n.kind in ("stmt", "return") for c in ast.walk(n.ast)
+              if isinstance(c, ast.Call) and call_name(c) == "zip" and len(c.args) == 2 and path_of(c.args[1]) == Sname]
+        if len(zc) != 1:
+            unknowns.append("zip(variables, chain array) not found")
+        else:
+            names = _ct(unparse(ex.expand(zc[0][1].args[0], zc[0][0])))
+            if names != _ct("np.array(self.geometry.variables).flatten()"):
+                problems.append(f"variable names `{names[:80]}` are not the geometry's variables in order")
+    okr = any(match(repo, ci, fn, o + ["return $R"]) is not None for o in ORDER)
+    if not okr:
+        unknowns.append("collection of the R-hat values not recognised")
+    geo = any(unify([f"if: {a}!={b}"], S)[0] is not None for a, b in (("self.geometry", "chains[$i].geometry"), ("chains[$i].geometry", "self.geometry"),
+                                                                       ("self.geometry", "$c.geometry"), ("$c.geometry", "self.geometry")))
+    if not geo:
         problems.append("chains with another geometry are not refused")
-    chk.add("C19-R4", f"{ci.qual}.compute_rhat", not problems, site(repo, fn), "chains on axis 1 by index, variables zipped in order", "; ".join(problems), fn)
+    if problems:
+        chk.fail("C19-R4", f"{ci.qual}.compute_rhat", site(repo, fn), "; ".join(problems), fn)
+    elif unknowns:
+        chk.unknown("C19-R4", f"{ci.qual}.compute_rhat", site(repo, fn), "; ".join(unknowns), fn)
+    else:
+        chk.ok("C19-R4", f"{ci.qual}.compute_rhat", site(repo, fn), "chains on axis 1 by index, variables zipped in order")
 
 
 def _r5(chk, repo, ci):
